@@ -197,7 +197,7 @@ def run_shard(acc, shard, nshards, seed, tier):
         nt = stats['resting'] >= 3 and stats['filled'] >= 1 and stats['survived'] >= 1
         cl = ['sim:' + ('fast' if spec['fast'] else 'step'), 'type:' + spec['cfg']['type'], 'tf:' + spec['routes'][0]['timeframe']] + sorted(stats['classes'])
         key = (spec['cfg'], spec['routes'], spec['scripts'], spec['candles'], spec['fast'])
-        return dict(key=key, nontrivial=nt, classes=cl, violations=vios,
+        return dict(key=key, nontrivial=nt, classes=cl, violations=vios, _orders=r['orders'],
                     sample=dict(cfg=spec['cfg'], routes=spec['routes'], fast=spec['fast'], minutes=spec['n'], resting_orders=stats['resting'], filled=stats['filled'],
                                 orders=r['orders'][:3]) if nt else None)
     runner.hyp_search(acc, sess, chk, 100 if tier == 'quick' else 2500, seed, tier, known=known, shrink_calls=25, max_shrink_sigs=2,
@@ -206,4 +206,50 @@ def run_shard(acc, shard, nshards, seed, tier):
     hair = sessions.session(minutes=(60, 180) if tier == 'quick' else (60, 400), max_data=0, warmup=(False,), align_len=True, program=dict(busy=True),
                             modes=('cross',), candle_opts=dict(start=20000, gap_sizes=(1, 2, 3), gap_ps=(3, 5, 8), max_body=2, max_wick=2))
     runner.hyp_search(acc, hair, lambda spec: dict(chk(spec), sub='hair-gap-sessions'), 25 if tier == 'quick' else 600, seed + 9, tier, known=known,
+                      shrink_calls=25, max_shrink_sigs=2, describe=lambda spec: dict(spec=spec))
+    # constructed: the price approaches a resting entry order, stops a ticks short of it, and the next minute opens b ticks beyond it
+    # and never trades back: the order's price lies strictly inside the gap between a close and the next open. Price scales make the
+    # same 2-6 tick gap anything from 1 % of the price down to a few millionths of it (below every 'close enough' float tolerance).
+    from hypothesis import strategies as st
+    from vf.gen import candles as gc
+
+    @st.composite
+    def gap_over_order(draw):
+        scale = draw(st.sampled_from([400, 4000, 20000, 100000, 600000, 600000]))  # price in ticks
+        tick = draw(st.sampled_from([0.5, 0.01, 0.25, 1.0]))
+        up = draw(st.booleans())          # the order lies above the price it is submitted at
+        long = draw(st.booleans())        # buy STOP / sell LIMIT above, buy LIMIT / sell STOP below
+        dist = max(3, -(-scale * 3 // 10000)) + draw(st.integers(0, 6))  # at least 0.03 % away: a resting order, not a market order
+        a, b = draw(st.integers(1, 3)), draw(st.integers(1, 3))
+        lead, approach, after = draw(st.integers(1, 4)), draw(st.integers(1, 5)), draw(st.integers(2, 8))
+        sgn = 1 if up else -1
+        moves = [(0, 0, 1, 1, 5)] * lead  # flat minutes (the order is submitted after the first one)
+        togo = dist - a
+        for i in range(approach):
+            stepk = togo // (approach - i)
+            togo -= stepk
+            moves.append((0, sgn * stepk, 0 if up else 1, 1 if up else 0, 7))  # wicks only away from the order
+        moves.append((sgn * (a + b), sgn * draw(st.integers(0, 3)), 2 if up else 0, 0 if up else 2, 9))  # gaps over the order, never trades back
+        for _ in range(after):
+            moves.append((0, sgn * draw(st.integers(0, 2)), 1 if up else 0, 0 if up else 1, 4))
+        rows = gc.rows_from_ticks(moves, scale, tick)
+        n = len(rows)
+        act = 'long' if long else 'short'
+        row0 = dict(act=act, entry=[[1.0, sgn * dist]], shape='list', exits_at='none', sl=None, tp=None, upd=None, on_red=None, on_inc=None, cancel=False)
+        idle = dict(act='none', entry=[[1.0, 0]], shape='list', exits_at='none', sl=None, tp=None, upd=None, on_red=None, on_inc=None, cancel=False)
+        balance = 10_000.0
+        unit = float(f"{balance * 0.1 / (scale * tick):.4g}")
+        script = dict(rows=[row0] + [idle] * (n + 2), tick=tick, unit=unit, cycle=False)
+        return dict(cfg=dict(type='futures', fee=draw(st.sampled_from([0.0, 0.001])), balance=balance, leverage=2, mode='cross', warm_up=0),
+                    routes=[dict(symbol='BTC-USDT', timeframe='1m')], data=[], candles={'BTC-USDT': rows}, warmup=None, scripts={'BTC-USDT': script},
+                    fast=draw(st.booleans()), n=n, ticks={'BTC-USDT': tick}, gap_rel=(a + b) / scale)
+
+    def chk_gap(spec):
+        d = chk(spec)
+        rel = spec['gap_rel']
+        d['classes'] = d['classes'] + ['gap-over-order:' + ('>=1e-3' if rel >= 1e-3 else '1e-4..1e-3' if rel >= 1e-4 else '1e-5..1e-4' if rel >= 1e-5 else '<1e-5')]
+        d['nontrivial'] = any(o['type'] != 'MARKET' for o in (d.get('_orders') or [])) or d['nontrivial']
+        d['sub'] = 'gap-over-order-sessions'
+        return d
+    runner.hyp_search(acc, gap_over_order(), chk_gap, 20 if tier == 'quick' else 500, seed + 10, tier, known=known,
                       shrink_calls=25, max_shrink_sigs=2, describe=lambda spec: dict(spec=spec))
